@@ -130,6 +130,7 @@ struct Out {
    std::map<std::string, Cell> cells;
    std::map<std::string, long> counts;
    std::map<std::string, long> failn;
+   std::map<std::string, double> failmag;   // largest magnitude (error) reported with a failure key, for the evidence
    long evaluations = 0, conclusive = 0, inconclusive = 0;
    int nsamples = 0;
    long cur = -1;   // current case index (added to every event)
@@ -140,9 +141,10 @@ struct Out {
       J j = c; j.i("_w", a.worker).i("_i", cur); return j.json();
    }
    // returns true if the failure was written (capped per key; the total is still counted)
-   bool fail(const std::string& key, const std::string& what, const J& c) {
+   bool fail(const std::string& key, const std::string& what, const J& c, double mag = -1) {
       long& n = failn[key];
       ++n;
+      if (mag >= 0 || mag != mag) { auto it = failmag.find(key); if (it == failmag.end()) failmag[key] = mag; else if (!(mag <= it->second)) it->second = mag; }
       if (n <= 20) {
          std::fprintf(f, "{\"t\":\"fail\",\"key\":\"%s\",\"what\":\"%s\",\"case\":%s}\n", esc(key).c_str(),
                       esc(what).c_str(), wrap(c).c_str());
@@ -165,6 +167,8 @@ struct Out {
          if (kv.second > 20)
             std::fprintf(f, "{\"t\":\"fail\",\"key\":\"%s\",\"what\":\"(further occurrences)\",\"n\":%ld,\"case\":{}}\n",
                          esc(kv.first).c_str(), kv.second - 20);
+      for (auto& kv : failmag)
+         std::fprintf(f, "{\"t\":\"failmag\",\"key\":\"%s\",\"worst\":%s}\n", esc(kv.first).c_str(), num(kv.second).c_str());
       for (auto& kv : cells)
          std::fprintf(f, "{\"t\":\"cell\",\"cell\":\"%s\",\"n\":%ld,\"worst\":%s,\"wit\":%s}\n", esc(kv.first).c_str(),
                       kv.second.n, num(kv.second.worst < 0 ? 0.0 : kv.second.worst).c_str(),
